@@ -956,7 +956,9 @@ func (w *vWorld) op(ws []string) (string, bool) {
 			u.State = types.StateSuspended
 		}
 		u.Public = "pub" + ws[1]
-		if err := w.ad.UserCreate(u); err != nil {
+		if kv["state"] == "missing" {
+			// a session of an account which is not there any more: the name stands for an id with no record behind it
+		} else if err := w.ad.UserCreate(u); err != nil {
 			return "err", true
 		}
 		w.users[ws[1]] = uid
